@@ -49,9 +49,15 @@ theorem licenses_distinct : distinctKeys (keys Gen.SpdxTables.licenses) = true :
 theorem exceptions_distinct : distinctKeys (keys Gen.SpdxTables.exceptions) = true := by decide +kernel
 theorem licenses_plus_closed : plusClosed Gen.SpdxTables.licenses = true := by decide +kernel
 
-/-- the one hand-modelled regular expression is the one in the source -/
+/-- the one hand-modelled regular expression is the one in the source: `^[A-Za-z0-9.-]+$`, flags `re.UNICODE` -/
 theorem refPattern_is_modelled :
-    Gen.SpdxTables.licenseRefPattern = [94, 91, 65, 45, 90, 97, 45, 122, 48, 45, 57, 46, 45, 93, 42, 36] ∧
+    Gen.SpdxTables.licenseRefPattern = [94, 91, 65, 45, 90, 97, 45, 122, 48, 45, 57, 46, 45, 93, 43, 36] ∧
     Gen.SpdxTables.licenseRefFlags = 32 := by decide
+
+/-- `str.translate(_ASCII_LOWER)` is `Py.lowerStr`: the table maps exactly `A`–`Z` to `a`–`z` -/
+theorem asciiLower_is_modelled :
+    (Gen.SpdxTables.asciiLowerMap.all fun p => isUpperAscii p.1 && p.2 == p.1 + 32) = true ∧
+    ((List.range 26).all fun i => Gen.SpdxTables.asciiLowerMap.lookup (65 + i) == some (97 + i)) = true := by
+  decide +kernel
 
 end C19
